@@ -171,3 +171,70 @@ func atomicWaitGrid() {
 		}
 	}
 }
+
+// sharedGrowDiff: a SHARED memory (threads) is allocated up to its maximum and never moves, but its length changes:
+// after every successful growth - by the guest or through the host API - memory.size, every access into the new pages,
+// and every access just beyond them must agree on both engines with the specification (sizes, traps, values).
+func sharedGrowDiff() {
+	ctx := context.Background()
+	for _, lim := range [][2]uint32{{1, 4}, {0, 3}, {2, 2}} {
+		m := wb.New()
+		mx := lim[1]
+		m.Memory(lim[0], &mx, true, "memory")
+		m.AddFunc(wb.Func{Params: []byte{wb.I32}, Results: []byte{wb.I32}, Export: "grow", Body: wb.Cat(wb.LocalGet(0), wb.MemoryGrow())})
+		m.AddFunc(wb.Func{Results: []byte{wb.I32}, Export: "size", Body: wb.MemorySize()})
+		m.AddFunc(wb.Func{Params: []byte{wb.I32, wb.I32}, Export: "store", Body: wb.Cat(wb.LocalGet(0), wb.LocalGet(1), wb.MemArg(wasm.OpcodeI32Store, 2, 0))})
+		m.AddFunc(wb.Func{Params: []byte{wb.I32}, Results: []byte{wb.I32}, Export: "load", Body: wb.Cat(wb.LocalGet(0), wb.MemArg(wasm.OpcodeI32Load, 2, 0))})
+		m.AddFunc(wb.Func{Params: []byte{wb.I32, wb.I32}, Results: []byte{wb.I32}, Export: "grow_store_load", Body: wb.Cat(
+			wb.LocalGet(0), wb.MemoryGrow(), wb.Op(wasm.OpcodeDrop), wb.LocalGet(1), wb.I32Const(0x5eed), wb.MemArg(wasm.OpcodeI32Store, 2, 0), wb.LocalGet(1), wb.MemArg(wasm.OpcodeI32Load, 2, 0), wb.MemorySize(), wb.Op(wasm.OpcodeI32Add))})
+		bin := m.Bytes()
+		type step struct {
+			fn   string
+			args []uint64
+			host bool // api.Memory.Grow(args[0]) instead of a guest call
+		}
+		pg := func(p uint32) uint64 { return uint64(p) * 65536 }
+		hist := []step{{"size", nil, false}, {"load", []uint64{pg(lim[0])}, false}, {"grow", []uint64{1}, false}, {"size", nil, false},
+			{"store", []uint64{pg(lim[0]+1) - 4, 0xabcdef}, false}, {"load", []uint64{pg(lim[0]+1) - 4}, false}, {"load", []uint64{pg(lim[0]+1) - 3}, false},
+			{"", []uint64{1}, true}, {"size", nil, false}, {"load", []uint64{pg(lim[0]+2) - 4}, false}, {"grow_store_load", []uint64{1, pg(lim[0]+3) - 8}, false},
+			{"size", nil, false}, {"grow", []uint64{70000}, false}, {"size", nil, false}, {"load", []uint64{0}, false}}
+		var obs [2][]string
+		for ei, rc := range []wazero.RuntimeConfig{wazero.NewRuntimeConfigInterpreter(), wazero.NewRuntimeConfigCompiler()} {
+			rt := wazero.NewRuntimeWithConfig(ctx, rc.WithCoreFeatures(features))
+			mod, err := safeInstantiate(ctx, rt, bin)
+			if err != nil {
+				rep.Note("shared grow differential skipped: %v", err)
+				rt.Close(ctx)
+				return
+			}
+			for _, st := range hist {
+				if st.host {
+					prev, ok := mod.Memory().Grow(uint32(st.args[0]))
+					obs[ei] = append(obs[ei], fmt.Sprintf("host-grow(%d)=%d,%v size=%d", st.args[0], prev, ok, mod.Memory().Size()))
+					continue
+				}
+				res, err := mod.ExportedFunction(st.fn).Call(ctx, st.args...)
+				switch {
+				case err != nil:
+					obs[ei] = append(obs[ei], fmt.Sprintf("%s%v=%s", st.fn, st.args, trapClass(err)))
+				case len(res) > 0:
+					obs[ei] = append(obs[ei], fmt.Sprintf("%s%v=%d", st.fn, st.args, uint32(res[0])))
+				default:
+					obs[ei] = append(obs[ei], fmt.Sprintf("%s%v", st.fn, st.args))
+				}
+			}
+			obs[ei] = append(obs[ei], fmt.Sprintf("final host size=%d", mod.Memory().Size()))
+			rt.Close(ctx)
+		}
+		rep.Case(fmt.Sprintf("shared-grow/%d/%d", lim[0], lim[1]))
+		for k := range obs[0] {
+			if obs[0][k] != obs[1][k] {
+				rep.Violate(hx.Violation{Kind: "impl-violation", Signature: "C01:engines-differ:shared-memory-after-growth",
+					What:     fmt.Sprintf("(memory %d %d shared): step %d of the history: interpreter %q, compiler %q", lim[0], lim[1], k, obs[0][k], obs[1][k]),
+					Input:    map[string]any{"memory": fmt.Sprintf("(memory %d %d shared)", lim[0], lim[1]), "history": fmt.Sprint(hist), "interpreter": obs[0], "compiler": obs[1]},
+					Expected: obs[0][k], Actual: obs[1][k]})
+				break
+			}
+		}
+	}
+}
